@@ -6,6 +6,11 @@ BASE = json.load(open("/root/.vp/BASELINE.json"))["cmd"] if os.path.exists("/roo
     "cd /repo && /venv/bin/python -m pytest -ra -q -p no:cacheprovider --timeout=900 --continue-on-collection-errors"
 
 CLAIMED = {
+ "C06": dict(
+    technique="static analysis: validate-before-use (statement order), dispatch-chain/validated-set equality, resolved call binding of every kkt_* factory arm, argument forwarding by call binding, block-offset extent algebra for start-point packing",
+    text="Only the structural clauses of C06 are decided: each dispatching entry point (conelp, coneqp, cpl, cp) rejects an unsupported kktsolver name with ValueError in a statement preceding any use of the value, its defaults are accepted names, the dispatch chain handles exactly the validated names, every arm builds the matching misc.kkt_* factory with arguments its def accepts (rank pre-check raising ValueError first), lp/socp/sdp/qp/gp forward kktsolver unchanged, and the start-point packing follows the block layout. Equality of results across storage formats, KKT solvers, start points, re-encodings and back-ends is numerical and NOT decided.",
+    note="Trusted: CPython ast, call binding in sa/world.py; the five KKT factorisations solve the same system (C07).",
+    ref="DESIGN.md section 3, C06"),
  "C15": dict(
     technique="static analysis: clang AST branch analysis of the in-place/regular arithmetic paths (typestate: type guard before write, no field write, returns self), closed-writer-set query over all six C files, CWRAP/OUT_RNG/create_indexlist dimension pairing, integer-narrowing rule, fresh-return rule for the Python elementwise functions",
     text="Static and deliberately narrow: the equality of dense-matrix operations with a column-major reference model is a statement about run-time values and is NOT decided. Decided, exhaustively over dense.c/base.c/__init__.py: in-place arithmetic rejects a type change before touching the buffer, assigns no field of self, frees nothing derived from self and returns self; buffer/id/nrows/ncols of an existing matrix are written only by constructors and the guarded size setter, and a buffer is freed only on deallocation; regular operations return Matrix_New* results; every negative-index wrap uses the dimension its index was range-checked against and Python integer indices are not narrowed before the range test; max/min/mul/div return fresh matrices.",
